@@ -14,25 +14,25 @@ import (
 )
 
 type LoginOpts struct {
-	Token     string // token used to sign
-	User      string
-	RunID     string
-	PoolCount int
-	Timestamp int64 // 0 => now
-	Key       *string // override PrivilegeKey
-	Spec      msg.ClientSpec
-	Metas     map[string]string
+	Token       string // token used to sign
+	User        string
+	RunID       string
+	PoolCount   int
+	Timestamp   int64   // 0 => now
+	Key         *string // override PrivilegeKey
+	Spec        msg.ClientSpec
+	Metas       map[string]string
 	CryptoToken string // token for the control channel cipher (defaults to Token)
-	Plain     bool   // internal listener: control channel is not encrypted
-	Hostname  string
+	Plain       bool   // internal listener: control channel is not encrypted
+	Hostname    string
 }
 
 type Peer struct {
-	Conn   net.Conn
-	rw     io.ReadWriter
-	RunID  string
-	Addr   string
-	Token  string
+	Conn  net.Conn
+	rw    io.ReadWriter
+	RunID string
+	Addr  string
+	Token string
 
 	mu      sync.Mutex
 	inbox   []msg.Message
@@ -187,9 +187,9 @@ func (p *Peer) WaitClosed(d time.Duration) bool {
 	return p.Closed()
 }
 
-func IsReqWorkConn(m msg.Message) bool { _, ok := m.(*msg.ReqWorkConn); return ok }
+func IsReqWorkConn(m msg.Message) bool  { _, ok := m.(*msg.ReqWorkConn); return ok }
 func IsNewProxyResp(m msg.Message) bool { _, ok := m.(*msg.NewProxyResp); return ok }
-func IsPong(m msg.Message) bool        { _, ok := m.(*msg.Pong); return ok }
+func IsPong(m msg.Message) bool         { _, ok := m.(*msg.Pong); return ok }
 
 // NewProxy sends a registration and waits for the matching response.
 func (p *Peer) NewProxy(np *msg.NewProxy, d time.Duration) (*msg.NewProxyResp, error) {
